@@ -227,7 +227,8 @@ def string_contents(rng, base, size, frm):
             ns.update([a - 1, a, a + 1, b, b + 1] if b is not None else [a - 1, a, a + 9])
         for n in sorted(x for x in ns if x >= 0):
             nb = (n + 7) // 8
-            out.append(("bits:%d" % n, bytes([0xff] * nb) if nb else b"", (8 * nb - n) if nb else 0))
+            un = (8 * nb - n) if nb else 0
+            out.append(("bits:%d" % n, (bytes([0xff] * (nb - 1)) + bytes([(0xff << un) & 0xff])) if nb else b"", un))   # DER: unused bits are zero
         out.append(("bits:empty-octets", b"", 0))
         return out
     if base == "UTF8String":
